@@ -43,14 +43,17 @@ LEVEL_TEXT = ("Proved in Lean 4 about the model that the driver runs, for ALL by
               "requestline_total, target_total, query_total) Url::Url, Url::decode (= the stated percent-decoding function), the "
               "request-line/target splits and Url::parseQuery never index outside their argument; (capitalized_case_invariant, "
               "header_lookup_case_insensitive, header_set_get) header lookup is case-insensitive; (readLine_faithful, "
-              "requestline_faithful, headers_faithful, body_content_length_exact, read_faithful) read(serialize q ++ rest) = (q, rest) "
-              "for every well-formed request q with no body or a Content-Length body of any size, with any pipelined bytes left "
-              "unread. The model is tied to the code by the correspondence check on all observable fields, socket state, bytes "
+              "requestline_faithful, headers_faithful, body_content_length_exact, read_faithful, read_faithful_chunked, "
+              "read_faithful_chunked_any_spelling, serve_faithful) read(serialize q ++ rest) = (q, rest) for every well-formed "
+              "request q with no body, a Content-Length body of any size, or a chunked body of any number of chunks (< 2^31 bytes "
+              "each), with any pipelined bytes left unread; and the keep-alive loop hands every pipelined well-formed request to the "
+              "application in order, exactly once. The model is tied to the code by the correspondence check on all observable fields, socket state, bytes "
               "written back and bytes left unread (socketpair and loopback TCP, sequential and concurrent server).")
 
-LEVEL_NOTE = ("Trusted: Lean kernel, harness + watchdog, libc/OS as listed in assumptions. Partial: read_faithful is proved for "
-              "Content-Length framing; the chunked statement is kept as `def read_faithful_chunked_full` (not proved; chunked requests "
-              "are validated by the correspondence check and the python reference). The RFC 3986 characterisation of the ?/# split and "
+LEVEL_NOTE = ("Trusted: Lean kernel, harness + watchdog, libc/OS as listed in assumptions. Partial: the hypotheses of the faithful-read theorems "
+              "that concern header values (no Expect, Content-Length = body length, Transfer-Encoding) are stated on the dictionary "
+              "`hdrDic headers` built by setHeader, not derived from the header list (the sorted-map lemma `other keys unaffected` is "
+              "not proved here; C02 proves the binary search). The RFC 3986 characterisation of the ?/# split and "
               "the Dic `other keys unaffected` lemma are not theorems (K + reference only); String::replace/contains are modelled "
               "directly as leftmost non-overlapping removal / scan for the constant \"..\" (tied by K on every target over "
               "{. / %2e %2f %25 a} up to the stated length). Timeouts/select and partial arrival are runtime behaviour outside the "
